@@ -277,7 +277,7 @@ Definition call_ok (f' : nat) (P : prog) (fr : frame) (k : callee) (npos : nat)
   match callee_frame Resolver f' P fr k with
   | Err _ => False
   | Ok None => forallb (fun n => mem_str n pre) pgs = true /\ npos = 0 /\ given = []
-               /\ (k = KSuper \/ exists c, k = KClass c)
+               /\ (k = KSuper \/ (exists c, k = KClass c) \/ (exists c, k = KSuperOf c))
   | Ok (Some fr') =>
       klass f' P fr' = 0%N /\
       exists R', resolve_frame f' P fr' = Ok R' /\
@@ -340,16 +340,18 @@ Proof.
                 && forallb (fun g => mem_str g (names (skipn npos R'))) given) eqn:Hw; [|discriminate].
       apply andb_true_iff in Hw. destruct Hw as [Hw Hw3]. apply andb_true_iff in Hw. destruct Hw as [Hw1 Hw2].
       apply Nat.leb_le in Hw1. auto 10.
-    + assert (Hk : k = KSuper /\ fr_mn fr = None \/ exists c, k = KClass c).
-      { destruct k; try discriminate; [destruct (fr_mn fr); [discriminate|left; auto]|right; eauto]. }
+    + assert (Hk : (k = KSuper \/ exists c, k = KSuperOf c) /\ fr_mn fr = None \/ exists c, k = KClass c).
+      { destruct k; try discriminate;
+          [destruct (fr_mn fr); [discriminate|left; auto]|right; eauto
+          |destruct (fr_mn fr); [discriminate|left; eauto]]. }
       assert (H' : (if negb (forallb (fun n => mem_str n pre) (pg_names (f_body (fr_fn fr)))) then 1%N
                     else if Nat.eqb npos 0 && is_nil given then 0%N else 9%N) = 0%N).
-      { destruct Hk as [[-> Hm]|[c ->]]; [rewrite Hm in H|]; exact H. }
+      { destruct Hk as [[[->|[c ->]] Hm]|[c ->]]; [rewrite Hm in H|rewrite Hm in H|]; exact H. }
       destruct (forallb (fun n => mem_str n pre) (pg_names (f_body (fr_fn fr)))); cbn [negb] in H'; [|discriminate].
       destruct (Nat.eqb npos 0 && is_nil given) eqn:Hw; [|discriminate].
       apply andb_true_iff in Hw. destruct Hw as [Hw1 Hw2]. apply Nat.eqb_eq in Hw1.
       destruct given; [|discriminate].
-      repeat split; auto. destruct Hk as [[-> _]|[c ->]]; [left; reflexivity|right; eauto].
+      repeat split; auto. destruct Hk as [[[->|[c ->]] _]|[c ->]]; [left; reflexivity|right; right; eauto|right; left; eauto].
   - exfalso.
     match type of H with
     | (if is_finding ?b then _ else _) = _ => destruct (is_finding b) eqn:Hb
@@ -375,7 +377,7 @@ Qed.
 Lemma callee_agree_eq f' P fr k : callee_agree f' P fr k = true ->
   callee_frame Interp f' P fr k = callee_frame Resolver f' P fr k.
 Proof.
-  destruct k as [|i|c|m]; cbn [callee_agree callee_frame]; try reflexivity.
+  destruct k as [|i|c|m|c]; cbn [callee_agree callee_frame]; try reflexivity.
   - unfold class_agree, class_frame. destruct (c3 f' P c) as [mro|]; [|discriminate].
     destruct (find_def P None mro 0) as [[j f]|]; [|reflexivity].
     intro H. apply Nat.eqb_eq in H. subst. reflexivity.
@@ -388,6 +390,10 @@ Proof.
     apply find_def_nth in Fd. destruct Fd as [_ (ci & Hci & Ho)].
     rewrite Nat.sub_0_r, Hn in Hci. inversion Hci; subst ci.
     simpl. rewrite Ho. reflexivity.
+  - destruct (fr_ctx fr) as [[mro idx]|]; [|reflexivity].
+    destruct (pos_from c mro 0 0) as [a|]; [|discriminate].
+    destruct (pos_from c mro 0 idx) as [b|]; [|discriminate].
+    intro H. apply Nat.eqb_eq in H. subst b. reflexivity.
 Qed.
 
 Lemma find_call_unique k np g pre : forall body acc c np' g',
@@ -550,7 +556,7 @@ Proof.
         - inversion Hps; subst ps. unfold remove_given in Hnn. rewrite skipn_nil in Hnn. destruct Hnn. }
       subst kw1. cbn [existsb app Nat.eqb is_nil andb].
       pose proof (run_body_pgs (call_frame f' P) (callee_frame Interp f' P fr) b2 [] Hb2) as Hp.
-      destruct Hkk as [->|[c ->]];
+      destruct Hkk as [->|[[c ->]|[c ->]]];
         destruct (run_body (call_frame f' P) (callee_frame Interp f' P fr) b2 []) as [o2 bs2];
         cbn [fst] in Hp; subst o2; reflexivity.
   - (* no **kwargs: the signature is the answer *)
